@@ -14,6 +14,12 @@ ADD_VARIANTS = {
 }
 
 
+# one play in a few records its trials through the card-letter entry point bib_trial(bib, 'o' / 'x' / 'r') instead of
+# cleared / failed / retired (set by the play drivers, recorded in the case as 'via_trial', restored by replay)
+VIA_TRIAL = False
+LETTER = {'cleared': 'o', 'failed': 'x', 'retired': 'r'}
+
+
 def new_comp():
     return HighJumpCompetition()
 
@@ -30,6 +36,10 @@ def apply(c, call, float_heights=False):
             c.add_jumper(bib=arg, **ADD_VARIANTS[op[4:]])
         elif op == 'bar':
             c.set_bar_height(float(arg) if float_heights else arg)
+        elif op == 'badtrial':
+            c.bib_trial(arg, 'z')            # not a card letter: refused like any other forbidden call
+        elif VIA_TRIAL and op in LETTER:
+            c.bib_trial(arg, LETTER[op])
         else:
             getattr(c, op)(arg)
         return ('ok',)
